@@ -22,6 +22,10 @@ func (s StringSubscript) StartIndex() Expression {
 	return s.startIndex
 }
 
+func (s StringSubscript) HasEndIndex() bool {
+	return s.endIndex != nil
+}
+
 func (s StringSubscript) EndIndex() Expression {
 	endIndex := s.endIndex
 
